@@ -275,7 +275,11 @@ pub fn global_parse_int(
         None => interp.intern(""),
     };
     let string = string.as_str().to_string();
-    let radix = args.get(1).map(|v| v.to_number() as i32).unwrap_or(10);
+    // ToInt32(radix): wraps modulo 2^32 (parseInt("10", 2 ** 32 + 2) is 2)
+    let radix = args
+        .get(1)
+        .map(|v| crate::value::to_int32(v.to_number()))
+        .unwrap_or(10);
 
     // Trim whitespace
     let s = string.trim();
